@@ -485,7 +485,9 @@ def check(ctx: Ctx) -> list[RuleResult]:
     r5.nontrivial += 1
     tx_atoms = [k for k in tabe.atoms if "tx_header" in k and "==" in k]
     if not tx_atoms:
-        raise AnalysisError(f"WantEcho.pkt_rcvd: no test of pkt._hdr against the echo header found (atoms: {tabe.atoms})")
+        r5.fail(f"{we2.short}:echo-not-by-header-equality", we2.loc(), f"WantEcho.pkt_rcvd has no equality test of the packet's header against the command's echo header (tests: {tabe.atoms[:6]}): whatever decides 'this is my echo' now, it is not whole-header equality")
+        out.append(r5)
+        return out
     # read off the *leaves* of the decision tree (the atoms a path actually evaluated): filled-in don't-care values say nothing
     pe2 = PredEval(ctx, we2, domains={"self._sent_cmd.src.id": [hgi]})
     pe2.table()
